@@ -48,6 +48,7 @@
   | apply f a… s       | s list or vector                               | what f returns                          |
   | update m k f       | map + string, vector + index, nil (↦ nil)      | map / vector                            |
 -/
+import LispModel.Proofs.Coherence
 import LispModel.Proofs.IntArithLaws
 import LispModel.Proofs.TyCtorLaws
 import LispModel.Core
@@ -667,5 +668,16 @@ open LispModel.IntArith in
 /-- outside that domain Go's answer differs from the mathematical one by a non-zero multiple of 2^64 (it wraps) -/
 theorem go_addition_wraps_outside_range {a b : Int} (h : ¬ inRange (a + b)) :
     goAdd a b ≠ a + b ∧ ∃ k : Int, k ≠ 0 ∧ a + b = goAdd a b + 18446744073709551616 * k := goAdd_ne_of_overflow h
+
+
+/-! ## coherence: `Core.body` / the reader's constructors versus the `types.go` slice -/
+
+/-- `hash-map`, `hash-set`, `set` of the builtin model are `NewHashMap` / `NewSet` of the slice (same value or same error) -/
+theorem constructor_models_agree : type_of% @LispModel.Coherence.Ctor.constructors_agree :=
+  @LispModel.Coherence.Ctor.constructors_agree
+/-- the type predicates of the builtin model are the slice's kind tests (`sequential?`: on every value the interpreter
+    itself can create; a host-injected Go value whose type is merely NAMED List / Vector is the one difference) -/
+theorem predicate_models_agree : type_of% @LispModel.Coherence.Ctor.predicates_agree :=
+  @LispModel.Coherence.Ctor.predicates_agree
 
 end LispModel.Props.C13
